@@ -503,3 +503,22 @@ HEAP_HEADERS["C17P"] = ("From CppUVerif Require Import lib.CSem lib.CMem lib.CHe
                         "a plugin's own preTestAction / postTestAction are the ghost events PPre / PPost carrying the plugin; a name is an integer that "
                         "identifies its text *)\n"
                         "Inductive pcev := PPre (p : hptr) | PPost (p : hptr).\n")
+
+# ------------------------------------------------------------------ C15 / C05: the C allocation wrappers of TestHarness_c.cpp (countdown, malloc, calloc, strdup, strndup)
+THC = "src/CppUTest/TestHarness_c.cpp"
+_G15H = [["malloc_out_of_memory_counter", "Z"], ["malloc_count", "Z"], ["evs", "list hcev"], ["blocks", "list (option (list N))"]]
+_H = "src_c_"
+_C15H = {n: {"fn": _H + n, "ghosts": True} for n in ["countdown", "cpputest_malloc_location", "test_harness_c_strlen", "strdup_alloc"]}
+_C15H.update({"cpputest_malloc_set_out_of_memory": {"event": "COutOfMemoryOn"},
+              "cpputest_malloc_location_with_leak_detection": {"fresh_block": "blocks", "size_arg": 0, "fb_event": "CMalloc {0} {1}"},
+              "PlatformSpecificMemCpy": {"fn": "mem_copy", "writes": True}, "PlatformSpecificMemset": {"fn": "mem_set", "writes": True}})
+GROUPS["C15"] = [dict(file=THC, name=n, coq=_H + n, calls=_C15H, ghosts=_G15H, enum_values={"NO_COUNTDOWN": -1, "OUT_OF_MEMORRY": 0}) for n in
+                 ["countdown", "cpputest_malloc_set_out_of_memory_countdown", "cpputest_malloc_location", "test_harness_c_strlen", "strdup_alloc",
+                  "cpputest_strdup_location", "cpputest_strndup_location", "cpputest_calloc_location"]]
+HEADERS["C15"] = ("From CppUVerif Require Import lib.CSem lib.CMem lib.CMemOps.\nLocal Open Scope Z_scope.\n"
+                  "(* translated by tools/cxx2gal.py: the C allocation wrappers of TestHarness_c.cpp. The file-static malloc_out_of_memory_counter and "
+                  "malloc_count are ghost variables of the same names; cpputest_malloc_set_out_of_memory() is the ghost event COutOfMemoryOn; the "
+                  "allocation behind the wrappers (cpputest_malloc_location_with_leak_detection) is answered by the oracle stream blocks: None = "
+                  "NULL, Some bytes = a new block with those (arbitrary) initial bytes, whose number must be the size asked for; the request is "
+                  "recorded as CMalloc size answered; PlatformSpecificMemCpy / PlatformSpecificMemset are mem_copy / mem_set of lib/CMemOps.v *)\n"
+                  "Inductive hcev := COutOfMemoryOn | CMalloc (size answered : Z).\n")
